@@ -12,9 +12,9 @@ import (
 )
 
 func init() {
-	register("C13", "Structural clauses of cp -a preservation, decided on all paths of the copier: metadata (owner, mode, times, then xattrs) is applied after the entry's content and, for directories, after the children; inside copyFileInfo the owner change precedes the mode change which precedes the timestamps, the mode change is skipped for symlinks, the owner is the Chowner's answer for the source uid/gid and the mode comes from the source, the symbolic set or the octal option; timestamps use the option or the source's atime/mtime without following links; regular files consult the per-copier inode map and link on a hit; xattrs use only the no-follow calls and route every error through the handler; created parents are chowned, timed and recorded; every non-directory written passes the single change notification. A copied device node gets the source node's device number; no error result in package copy is left unread, and with a non-nil error from a filesystem, path-resolution, pattern or copy call, or from a function of the package, no success return of the caller is reachable (not-exist tolerances tabled and decided with the predicate pinned false; the copy_file_range fallback only through the userspace copy; errors handed to the caller's xattr handler). Does not decide tree equality, numeric mode semantics or hard-link identity at run time.", runC13)
+	register("C13", "Structural clauses of cp -a preservation, decided on all paths of the copier: metadata (owner, mode, times, then xattrs) is applied after the entry's content and, for directories, after the children; inside copyFileInfo the owner change precedes the mode change which precedes the timestamps, the mode change is skipped for symlinks, the owner is the Chowner's answer for the source uid/gid and the mode comes from the source, the symbolic set or the octal option; timestamps use the option or the source's atime/mtime without following links; regular files consult the per-copier inode map and link on a hit; xattrs use only the no-follow calls and route every error through the handler; created parents are chowned, timed and recorded; every non-directory written passes the single change notification. A copied device node gets the source node's device number; no error result in package copy is left unread, and with a non-nil error from a filesystem, path-resolution, pattern or copy call, or from a function of the package, no success return of the caller is reachable (not-exist tolerances tabled and decided with the predicate pinned false; the copy_file_range fallback only through the userspace copy; errors handed to the caller's xattr handler). xattrs are set with flags 0 (create or replace). Does not decide tree equality, numeric mode semantics or hard-link identity at run time.", runC13)
 	register("C14", "Structural clauses of copy containment (package copy, every non-windows build): every filesystem call of the package is classified and a symlink-following call occurs only at tabled sites whose precondition is re-checked (root-resolved arguments, Lstat-classified directories, a target emptied first, a not-symlink guard); UtimesNanoAt carries AT_SYMLINK_NOFOLLOW; every path Copy hands on derives from fs.RootPath / rootPath; inspection of source and target is Lstat-based; the target is emptied (checked) before anything is created on the non-directory arms. rootPath anchors its argument at the root ('/') before splitting it; the first argument of every root resolution in the package is a root of the enclosing function. Does not decide races, fs.RootPath itself or wildcard expansion.", runC14)
-	register("C15", "The one clause of the overlay rules with a structural form: the only destructive calls of package copy are os.Remove behind an Lstat-says-not-a-directory test and os.RemoveAll behind always-replace && target exists && not (both directories); a directory meeting a non-directory returns an error and touches nothing. Destination path selection, merge semantics, wildcards, trailing separators and idempotence are value-level and declined. MkdirAll cannot succeed on an existing non-directory.", runC15)
+	register("C15", "The one clause of the overlay rules with a structural form: the only destructive calls of package copy are os.Remove behind an Lstat-says-not-a-directory test and os.RemoveAll behind always-replace && target exists && not (both directories); a directory meeting a non-directory returns an error and touches nothing. Destination path selection, merge semantics, wildcards, trailing separators and idempotence are value-level and declined. MkdirAll cannot succeed on an existing non-directoryxattrs are re-applied with flags 0 (create or replace), so merging a directory and repeating a copy do not fail on attributes already present. .", runC15)
 }
 
 func runC13(c *Ctx) {
@@ -32,6 +32,9 @@ func runC13(c *Ctx) {
 	}
 	errDisciplineAll(c, "R13.9", 1, "copy")
 	r13_10(c, "R13.10")
+	if c.Unix() {
+		xattrSetFlags(c, "R13.11")
+	}
 }
 
 // copy-package call sites whose error is accepted by a predicate, or not decided
@@ -300,6 +303,11 @@ func runC15(c *Ctx) {
 	r15_5(c, "R15.5")
 	// wildcard sources: what counts as a wildcard (shared with C18)
 	wildcardChars(c, "R15.6", "copy.containsWildcards")
+	if c.Unix() {
+		// repeating a copy, merging directories: xattrs are re-applied onto
+		// entries that already carry them
+		xattrSetFlags(c, "R15.7")
+	}
 }
 
 // R15.5: MkdirAll never mistakes something else for the directory it was
@@ -1432,4 +1440,34 @@ func forwardedLibCall(c *Ctx, f *ssa.Function) string {
 		return ""
 	}
 	return name
+}
+
+// xattrSetFlags: xattrs are written create-or-replace.
+//
+// copyXAttrs runs on freshly created entries and on directories that already
+// exist in the destination (merge, repeated copy, ancestors created earlier):
+// the flags argument of the set call is 0. XATTR_CREATE (1) fails with EEXIST
+// on an attribute the directory already carries, XATTR_REPLACE (2) with ENODATA
+// on a fresh entry.
+func xattrSetFlags(c *Ctx, rule string) {
+	c.R.Rule(rule, "copyXAttrs sets attributes with flags 0 (create or replace): re-applying them onto an existing directory must succeed")
+	fn := c.Fn(rule, "copy.copyXAttrs")
+	if fn == nil {
+		return
+	}
+	n := 0
+	for _, call := range eng.Calls(fn) {
+		switch c.P.CalleeName(call) {
+		case "github.com/containerd/continuity/sysx.LSetxattr", "github.com/containerd/continuity/sysx.Setxattr", "golang.org/x/sys/unix.Lsetxattr", "golang.org/x/sys/unix.Setxattr":
+		default:
+			continue
+		}
+		a := call.Common().Args
+		n++
+		k, isK := eng.ConstInt(a[len(a)-1])
+		c.R.Check(isK && k == 0, rule, c.siteName(call)+"/create-or-replace", c.pos(call), "flags 0", "the attribute is set with a flag other than 0 (XATTR_CREATE / XATTR_REPLACE): re-applying xattrs onto a directory that already has them fails, directories no longer merge and a repeated copy fails")
+	}
+	if n == 0 {
+		c.R.OK(rule, c.name(fn)+"/no-set-call", c.P.Pos(fn.Pos()), "no xattr set call on this platform")
+	}
 }
